@@ -204,3 +204,49 @@ Definition netlist_of (t : tree) : list elt := fst (emit t 1%nat 0%nat 2%nat).
 End Model.
 
 Arguments CNone {K}. Arguments CSome {K}. Arguments CErr {K}. Arguments EW {K}. Arguments EC {K}.
+
+(* ---- correspondence helpers over Qc (evaluated by vm_compute in cases_*.v) ---------- *)
+Definition oqeqb (a b : option Qc) : bool :=
+  match a, b with Some x, Some y => qc_eqb x y | None, None => true | _, _ => false end.
+Fixpoint listeqb {A} (f : A -> A -> bool) (l1 l2 : list A) : bool :=
+  match l1, l2 with [] , [] => true | x :: r1, y :: r2 => f x y && listeqb f r1 r2 | _, _ => false end.
+(* [skip]: class tags whose constructor argument is a signal (compared by class only) *)
+Definition lf_eqb (skip : list nat) (a b : lf QcF) : bool :=
+  Nat.eqb (ctag a) (ctag b) && (if existsb (Nat.eqb (ctag a)) skip then true else listeqb oqeqb (largs a) (largs b)).
+Section TreeEqb.
+Variable skip : list nat.
+Fixpoint tree_eqb (a b : tree (lf QcF)) {struct a} : bool :=
+  match a, b with
+  | Leaf x, Leaf y => lf_eqb skip x y
+  | Ser xs, Ser ys => (fix go (xs ys : list (tree (lf QcF))) : bool :=
+                         match xs, ys with [], [] => true | x :: r1, y :: r2 => tree_eqb x y && go r1 r2 | _, _ => false end) xs ys
+  | Par xs, Par ys => (fix go (xs ys : list (tree (lf QcF))) : bool :=
+                         match xs, ys with [], [] => true | x :: r1, y :: r2 => tree_eqb x y && go r1 r2 | _, _ => false end) xs ys
+  | _, _ => false
+  end.
+Definition otree_eqb (a b : option (tree (lf QcF))) : bool :=
+  match a, b with Some x, Some y => tree_eqb x y | None, None => true | _, _ => false end.
+(* in a netlist the classes v and V (i and I) are both printed as type V (I) without keyword *)
+Variable nm : list (nat * nat).
+Definition normtag (t : nat) : nat :=
+  match find (fun p => Nat.eqb (fst p) t) nm with Some p => snd p | None => t end.
+Definition lf_eqb_n (a b : lf QcF) : bool :=
+  Nat.eqb (normtag (ctag a)) (normtag (ctag b)) &&
+  (if existsb (Nat.eqb (ctag a)) skip then true else listeqb oqeqb (largs a) (largs b)).
+Definition elt_eqb (a b : elt QcF) : bool :=
+  match a, b with
+  | EW a1 b1, EW a2 b2 => Nat.eqb a1 a2 && Nat.eqb b1 b2
+  | EC l1 a1 b1, EC l2 a2 b2 => lf_eqb_n l1 l2 && Nat.eqb a1 a2 && Nat.eqb b1 b2
+  | _, _ => false
+  end.
+End TreeEqb.
+(* instantiation of the opaque transforms for the Laplace-domain evaluation at s = s0:
+   a dc or step source of value x has transform x / s; signals of the classes V, I, v, i,
+   Vac, Iac are handed over already transformed (computed by the harness from text-book pairs) *)
+Definition LDq (s0 : Qc) (sp : Qc -> Qc) : lf QcF -> ldata QcF :=
+  ld (K:=QcF) s0 sp (0%Qc : QcF) (fun x => x / s0)%Qc (fun x => x / s0)%Qc (fun x => x) (fun x => x) (fun x => x) (fun v _ _ => v).
+Definition simplify_q (s0 : Qc) (sp : Qc -> Qc) (t : tree (lf QcF)) : option (tree (lf QcF)) :=
+  simplify QcF s0 sp (0%Qc : QcF) (fun x => x / s0)%Qc (fun x => x / s0)%Qc (fun x => x) (fun x => x) (fun x => x) (fun v _ _ => v) t.
+Definition netlist_q (t : tree (lf QcF)) : list (elt QcF) := netlist_of QcF t.
+(* junk-free comparison: the real value may be complex infinity *)
+Definition vchk (x expected : Qc) : bool := qc_eqb x expected.
